@@ -38,7 +38,7 @@ def c01_jobs(tier):
 
 
 def c19_jobs(tier):
-    jobs = []
+    jobs = [dict(fuzz="program", runs=60000, max_len=300, procs=8)] if tier == "thorough" else []
     shards = 2 if tier == "quick" else 8
     cases = "3000" if tier == "quick" else "60000"
     for sb in (4096, 0):
@@ -85,6 +85,7 @@ PROPS = {
         ),
     ),
     "C19": dict(
+        fuzz_target="program",
         jobs=c19_jobs,
         cross_build=True,
         meta=dict(
@@ -171,7 +172,9 @@ PROPS = {
                exhaustive="attachment counts 0..300 x 5 data shapes x 2 mixtures (ipc API) and x 1 shape cycle (platform API), per build/configuration"),
     ),
     "C16": dict(
-        jobs=lambda tier: [dict(build=b, params={"cases": "40000" if tier == "quick" else "1000000"}, shards=8 if tier == "quick" else 16) for b in ("os", "memfd")],
+        fuzz_target="decode",
+        jobs=lambda tier: [dict(build=b, params={"cases": "40000" if tier == "quick" else "1000000"}, shards=8 if tier == "quick" else 16) for b in ("os", "memfd")]
+        + ([dict(fuzz="decode", runs=1500000, max_len=600, procs=8)] if tier == "thorough" else []),
         meta=M("exploration",
                "structure-aware fuzzing with proptest: random bytes and mutated valid encodings (bit flips, truncation, extension, special-value overwrites of length prefixes and attachment indices) x attachment lists x 13 expected types x 5 receive paths, with identity probes and release checks",
                "Arbitrary (bytes, attachments) pairs are put on the wire through the public API (a harness type that serialises as raw bytes and registers attachments) and received as one of 13 expected types via recv, try_recv, receiver set + OpaqueIpcMessage::to, or dropped undecoded via a receiver set or a router callback. The result must be Ok or Err - never a panic/abort; every endpoint/region in an Ok value must be one of the attached ones and handed out at most once (probed); after dropping everything each attached-only sender's channel reports Disconnected, each attached receiver's channel refuses sends, and the descriptor table is back to its baseline.",
